@@ -292,7 +292,8 @@ class C15(CreateProp):
         for n, (sh, sizes, P) in enumerate(gen_trees(tier, rng, plens(tier), 260, 12000)):
             creator = "TorrentFile" if n % 4 else "cli"
             out.append({"creator": creator, "version": 1, "align": True, "P": P,
-                        "tree": mk_tree(sh, sizes, modes=modes_for(n, sizes)), "clauses": cl})
+                        "tree": mk_tree(sh, sizes, modes=modes_for(n, sizes)), "clauses": cl,
+                        "progress": (1, 2)[(n // 3) % 2] if n % 3 == 0 else 0})
         out += hasher1_universe("MC_HasherV1.cfg" if tier != "thorough" else "MC_HasherV1_4files.cfg",
                                 ["C15.scaled", "M01.scaled"], rng, None if tier == "thorough" else 1500, aligns=(True,))
         return out
@@ -449,6 +450,11 @@ class C08(CreateProp):
             cr = creators[v][b % len(creators[v])]
             base = {"creator": cr, "version": v, "P": P, "tree": tree, "group": grp, "opts": dict(infoopts),
                     "outer": "plain", "clauses": ["C08.info", "C08.rest", "C08.name"]}
+            if b % 3 == 0 and (b // 3) % 2 == 1:       # v1 groups: half of them with --align (same for all members)
+                base["align"] = True
+                if sizes[-1] % P == 0:                 # ... and a last file that does not fill its piece
+                    sizes = sizes[:-1] + (sizes[-1] + 1 + b,)
+                    base["tree"] = tree = mk_tree(sh, sizes)
             members = [dict(base)]                                   # canonical: absolute path
             dir_sp = ["rel", "dotslash", "updown", "absdot", "dbl", "symparent", "symparentrel"] + (
                 [] if sh == "S1" else ["trail", "trail2", "slashdot", "dot"])
